@@ -44,66 +44,65 @@ Theorem C13_writer_close_sets_flag_first : forall s code,
 Proof. exact writer_close_flag_first. Qed.
 Print Assumptions C13_writer_close_sets_flag_first.
 
-(* ---- the transport is closed once the session is closed --------------------------------------------
-   Full statement: forall c s, reach c s -> finished c s -> tr_closing s = true.
-   Refuted by the faithful server model (replayed on the code: corpus/C13/server_cancelled_close_at_close_wait.json):
-   close() cancelled at `await self._close_wait` leaves _closed = True with the transport open. *)
-Theorem C13_closed_implies_transport_closed_refuted :
-  ~ (forall c s, reach c s -> finished c s -> tr_closing s = true).
-Proof. exact transport_closed_refuted. Qed.
-Print Assumptions C13_closed_implies_transport_closed_refuted.
+(* ---- the transport is closed once the session is closed: FULL, both sides, all interleavings --------------
+   (Refuted before fix 6837d66: the server's close() cancelled at `await self._close_wait` left the transport open;
+   that history is now corpus/C13/fixed_server_cancelled_close_at_close_wait.json and the example below.) *)
+Theorem C13_closed_implies_transport_closed : forall c s,
+  reach c s -> finished c s -> tr_closing s = true.
+Proof. exact transport_closed_full. Qed.
+Print Assumptions C13_closed_implies_transport_closed.
 
-(* Proved in its place, for every reachable state of both sides: unless that cancellation happened (ghost flag
-   cw_leak, set only on that server path), closed + no close() in progress implies transport closed.
-   Missing for the full statement: the server's `await self._close_wait` would have to sit inside the try. *)
-Theorem C13_closed_implies_transport_closed_partial : forall c s,
-  reach c s -> finished c s -> cw_leak s = false -> tr_closing s = true.
-Proof. exact transport_closed_partial. Qed.
-Print Assumptions C13_closed_implies_transport_closed_partial.
-
-(* On the client the escape does not exist: the statement is full there. *)
-Theorem C13_closed_implies_transport_closed_client : forall c s,
-  c_side c = Client -> reach c s -> closed s = true ->
-  (forall t, closer c (t_pc (tasks s t)) = false) -> tr_closing s = true.
-Proof. exact client_closed_implies_transport_closed. Qed.
-Print Assumptions C13_closed_implies_transport_closed_client.
+Example C13_example_server_cancelled_close :
+  exists s, reach cfgS s /\ finished cfgS s /\ ready s = [] /\ tr_closing s = true /\
+            close_code s = Some ws_close_abnormal /\ t_pc (tasks s 1) = PDone XCancelled.
+Proof. exact witness_server_cancelled_close. Qed.
+Print Assumptions C13_example_server_cancelled_close.
 
 (* ---- the reported close code ------------------------------------------------------------------------
-   Full statement: in a finished session close_code is 1006 or a code the peer sent in a close frame.
-   Refuted on the server (close() racing a blocked receive(): 1000 with no peer close frame;
-   corpus/C13/server_close_while_receive_blocked.json, server_close_racing_eof.json) and on the client
-   (malformed frame: the protocol-error code we sent is reported; corpus/C13/client_protocol_error_code.json). *)
-Theorem C13_close_code_refuted :
-  ~ (forall c s, reach c s -> finished c s ->
-       close_code s = Some ws_close_abnormal \/ exists x, close_code s = Some x /\ In x (peer_closes s)).
-Proof. exact close_code_refuted. Qed.
-Print Assumptions C13_close_code_refuted.
+   Statement: in a finished session close_code is 1006 or a code the peer sent in a close frame.
+   Status: NOT PROVED as a theorem over all interleavings.  The four refutations of the earlier tree are gone
+   (fixes ee50231, 2731c52, 0ea8ce0): their histories are now regression corpus cases (corpus/C13/fixed_*.json)
+   and the examples below show the model ending them with the peer's code / 1006; the implementation oracle
+   checks the statement on every generated history and finds no violation.  What is missing for the theorem: an
+   invariant that a receive() woken without a message (EofStream with the queue not at EOF) implies that another
+   task has closed the session — the provisional `self._close_code = OK` of receive()'s EofStream handler is
+   harmless only because of that, and it relates the queue contents to the program counters of all tasks. *)
+Example C13_example_server_close_vs_receive_waits :
+  exists s, reach cfgS s /\ finished cfgS s /\ tr_closing s = true /\ sent s = [FClose 1001] /\
+            peer_closes s = [4001] /\ close_code s = Some 4001 /\ t_pc (tasks s 0) = PDone (RMsg MClosing) /\
+            t_pc (tasks s 1) = PDone (RBool true).
+Proof. exact witness_server_close_vs_receive_waits. Qed.
+Print Assumptions C13_example_server_close_vs_receive_waits.
 
-Theorem C13_close_code_refuted_client :
-  ~ (forall s, reach cfgC s -> finished cfgC s ->
-       close_code s = Some ws_close_abnormal \/ exists x, close_code s = Some x /\ In x (peer_closes s)).
-Proof. exact close_code_refuted_client. Qed.
-Print Assumptions C13_close_code_refuted_client.
+Example C13_example_server_close_vs_receive_timeout :
+  exists s, reach cfgS s /\ finished cfgS s /\ tr_closing s = true /\ peer_closes s = [] /\
+            close_code s = Some ws_close_abnormal.
+Proof. exact witness_server_close_vs_receive_timeout. Qed.
+Print Assumptions C13_example_server_close_vs_receive_timeout.
 
-(* the two server witnesses, spelled out *)
-Example C13_witness_server_close_vs_receive :
-  exists s, reach cfgS s /\ finished cfgS s /\ tr_closing s = true /\ peer_closes s = [] /\ close_code s = Some ws_close_ok.
-Proof. exact witness_server_code_1000. Qed.
-Print Assumptions C13_witness_server_close_vs_receive.
-
-Example C13_witness_server_close_racing_eof :
+Example C13_example_server_close_racing_eof :
   exists s, reach cfgS s /\ finished cfgS s /\ lost s = true /\ peer_closes s = [] /\ sent s = [] /\
-            close_code s = Some ws_close_ok.
-Proof. exact witness_server_eof_code_1000. Qed.
-Print Assumptions C13_witness_server_close_racing_eof.
+            close_code s = Some ws_close_abnormal.
+Proof. exact witness_server_close_racing_eof. Qed.
+Print Assumptions C13_example_server_close_racing_eof.
 
-(* client: a clean handshake (peer code 3000) ends up reported as 1000
-   (corpus/C13/client_eof_handler_overwrites_peer_code.json) *)
-Example C13_witness_client_eof_overwrites_peer_code :
+Example C13_example_client_protocol_error :
+  exists s, reach cfgC s /\ finished cfgC s /\ tr_closing s = true /\ sent s = [FClose ws_close_protocol_error] /\
+            peer_closes s = [] /\ close_code s = Some ws_close_abnormal.
+Proof. exact witness_client_protocol_error. Qed.
+Print Assumptions C13_example_client_protocol_error.
+
+Example C13_example_client_two_closes_keep_peer_code :
   exists s, reach cfgC s /\ finished cfgC s /\ tr_closing s = true /\ sent s = [FClose 1001] /\
-            peer_closes s = [3000] /\ close_code s = Some ws_close_ok.
-Proof. exact witness_client_eof_overwrites_peer_code. Qed.
-Print Assumptions C13_witness_client_eof_overwrites_peer_code.
+            peer_closes s = [3000] /\ close_code s = Some 3000.
+Proof. exact witness_client_two_closes_keep_peer_code. Qed.
+Print Assumptions C13_example_client_two_closes_keep_peer_code.
+
+Example C13_example_client_receive_takes_peer_close :
+  exists s, reach cfgC s /\ finished cfgC s /\ tr_closing s = true /\ peer_closes s = [3000] /\ close_code s = Some 3000 /\
+            t_pc (tasks s 0) = PDone (RMsg (MClose 3000)).
+Proof. exact witness_client_receive_takes_peer_close. Qed.
+Print Assumptions C13_example_client_receive_takes_peer_close.
 
 (* ---- close() returns within the close timeout (bounded progress under timer fairness) -----------------
    (1) Invariant, both sides, all interleavings: while close() waits for the peer's close frame its timeout is
